@@ -35,7 +35,11 @@ def shard(xs):
   """
   local_device_count = jax.local_device_count()
   return jax.tree_util.tree_map(
-    lambda x: x.reshape((local_device_count, -1) + x.shape[1:]), xs
+    # (the per-device size is spelled out: -1 is ambiguous for empty arrays)
+    lambda x: x.reshape(
+      (local_device_count, x.shape[0] // local_device_count) + x.shape[1:]
+    ),
+    xs,
   )
 
 
@@ -103,5 +107,9 @@ def onehot(labels, num_classes, on_value=1.0, off_value=0.0):
   x = labels[..., None] == jnp.arange(num_classes).reshape(
     (1,) * labels.ndim + (-1,)
   )
-  x = lax.select(x, jnp.full(x.shape, on_value), jnp.full(x.shape, off_value))
+  x = lax.select(
+    x,
+    jnp.full(x.shape, on_value, jnp.float32),
+    jnp.full(x.shape, off_value, jnp.float32),
+  )
   return x.astype(jnp.float32)
